@@ -36,7 +36,8 @@ def write_trace(td, streams, order=None, offsets=None, offsets_name="clock-offse
         with open(os.path.join(td, offsets_name), "w") as f:
             f.write("rank hostname offset_median offset_mean offset_std\n")
             for k, (host, off) in enumerate(sorted(offsets.items())):
-                f.write("%d %s %d %f %f\n" % (k, host, off, float(off), 0.0))
+                # the offset applied is the median column; mean and deviation differ from it as in every real ovnisync table
+                f.write("%d %s %d %f %f\n" % (k, host, off, float(off) + 116.25 + k, 31.5))
 
 
 def check_dump(out, streams):
